@@ -315,7 +315,7 @@ def World.runOnce (w : World) : World × Bool := w.runOnceLoop (w.tm.heap.length
         def idle(timeout):
             if trigger.is_set: trigger.is_set = False; return   # the pipe wakes select() at once
             if now + timeout > T: now = max(now, T); core.stop(); return
-            now = now + timeout
+            now = now + timeout      # (= the head's due time whenever the heap is non-empty)
 
     (`trigger` is a flag object put in place of the manager's wake-up pipe:
     install_task, suspend_task and deferred set it, exactly as they write to
@@ -347,7 +347,8 @@ def World.runLoop : Nat → Nat → World → World × Bool
         runLoop fuel T ({ w with tm := { w.tm with trig := false } }).drain
       else if w.now + d > T then
         -- stop(): `running = False`; the iteration still finishes with the drain
-        (({ w with now := max w.now T }).drain, true)
+        -- (stop() also sets the trigger)
+        (({ w with now := max w.now T, tm := { w.tm with trig := true } }).drain, true)
       else
         runLoop fuel T ({ w with now := w.now + d }).drain
 
